@@ -158,3 +158,66 @@ def install():
 def set_format_stub(on: bool):
     global FORMAT_STUB
     FORMAT_STUB = on
+
+
+def live_caches():
+    """Cond.setup hook (C04/C09): memoised functions keep their real lru caches during symbolic runs.
+
+    CrossHair bypasses functools.lru_cache; here the real wrapper is called whenever every argument is concrete (the cached
+    functions of bitstring take strings / small ints), so that cache hits, shared cached values and stale entries are part
+    of what is explored.  Dtype._create / _new_from_token are re-wrapped (env.install() unwrapped them)."""
+    import functools
+    from crosshair import core
+    from crosshair.libimpl import builtinslib as B
+    from crosshair.tracers import NoTracing
+    from functools import _lru_cache_wrapper
+
+    def _concrete(x):
+        if isinstance(x, (B.SymbolicValue,)) or type(x).__name__ in ('LazyIntSymbolicStr', 'SymbolicBytes'):
+            return False
+        if isinstance(x, (tuple, list)):
+            return all(_concrete(y) for y in x)
+        if isinstance(x, dict):
+            return all(_concrete(k) and _concrete(v) for k, v in x.items())
+        return True
+
+    def call_cache(self, *a, **kw):
+        if not isinstance(self, _lru_cache_wrapper):
+            raise TypeError
+        with NoTracing():
+            ok = _concrete(a) and _concrete(kw)
+        if ok:
+            # a miss runs the wrapped function *traced* (it is plain Python called from the C wrapper)
+            return _lru_cache_wrapper.__call__(self, *a, **kw)
+        return self.__wrapped__(*a, **kw)
+    core._PATCH_REGISTRATIONS[_lru_cache_wrapper.__call__] = call_cache
+
+    from bitstring.dtypes import Dtype, CACHE_SIZE
+    for nm in ('_create', '_new_from_token'):
+        cm = Dtype.__dict__[nm]
+        inner = cm.__func__
+        if not hasattr(inner, 'cache_info'):
+            setattr(Dtype, nm, classmethod(functools.lru_cache(CACHE_SIZE)(inner)))
+
+
+def all_caches():
+    """every lru cache found on the package's modules (name -> wrapper)"""
+    import bitstring
+    from bitstring import bitstore_helpers, utils, dtypes
+    out = {}
+    for mod in (bitstore_helpers, utils):
+        for nm, v in vars(mod).items():
+            if hasattr(v, 'cache_clear') and hasattr(v, '__wrapped__'):
+                out[f'{mod.__name__}.{nm}'] = v
+    for nm in ('_create', '_new_from_token'):
+        f = dtypes.Dtype.__dict__[nm].__func__
+        if hasattr(f, 'cache_clear'):
+            out[f'Dtype.{nm}'] = f
+    return out
+
+
+def clear_caches():
+    for v in all_caches().values():
+        v.cache_clear()
+    import bitstring
+    bitstring.Array._largest_values = None
